@@ -531,7 +531,7 @@ impl Property for C01 {
             let clo: Vec<Tid> = model::closure(&sc, &req).into_iter().filter(|t| model::kind_of(&sc, t) == Some(Kind::Build)).collect();
             if !clo.is_empty() {
                 let t = rng.pick(&clo).clone();
-                let kind = if rng.chance(50) { "sig=9".to_string() } else { format!("exit={}", rng.range(1, 3)) };
+                let kind = if rng.chance(50) { "sig=9".to_string() } else { gen::fail_exit(rng) };
                 inv.plan.faults.push(Fault { site: format!("proc.exit:{}", sc.sim_id(t.0, &t.1)), occurrence: 1, kind });
             }
         }
@@ -606,6 +606,21 @@ impl Property for C08 {
             // cleaning is confined to the closure as well
             args.insert(0, "--clean".into());
         }
+        if !sc.steps.is_empty() && rng.chance(25) {
+            // the record of one target was torn since the priming run (crash, full disk): dealing
+            // with it is confined to that target as well
+            let builds: Vec<String> = sc.projects[0].targets.iter().filter(|t| t.kind == Kind::Build && !t.input.is_empty()).map(|t| t.name.clone()).collect();
+            if !builds.is_empty() {
+                let target = rng.pick(&builds).clone();
+                let how = match rng.below(4) {
+                    0 => Corrupt::Truncate(rng.below(48)),
+                    1 => Corrupt::Garbage(rng.next()),
+                    2 => Corrupt::FlipBit(rng.below(8 * 120)),
+                    _ => Corrupt::Empty,
+                };
+                sc.steps.push(Step::CorruptState { project: 0, target, how });
+            }
+        }
         let inv = standard_invocation(rng, &sc, args);
         sc.steps.push(Step::Invoke(inv));
         sc
@@ -620,6 +635,9 @@ impl Property for C08 {
         };
         let mut idx = 0;
         for st in &sc.steps {
+            if let Step::CorruptState { project, target, how } = st {
+                super::history::apply_corruption(sc, &case, *project, target, how);
+            }
             if let Step::Invoke(inv) = st {
                 let before = outsider_snapshot(sc, &case, inv);
                 let r = run_invocation(sc, &mut case, inv, &format!("s{}", idx));
@@ -731,7 +749,7 @@ impl Property for C07 {
                 let id = sc.sim_id(t.0, &t.1);
                 let is_build = model::kind_of(&sc, &t) == Some(Kind::Build);
                 let f = match (is_build, rng.weighted(&[55, 15, 30])) {
-                    (true, 0) => Fault { site: format!("proc.exit:{}", id), occurrence: 1, kind: format!("exit={}", rng.range(1, 3)) },
+                    (true, 0) => Fault { site: format!("proc.exit:{}", id), occurrence: 1, kind: gen::fail_exit(rng) },
                     (true, 1) => Fault { site: format!("proc.exit:{}", id), occurrence: 1, kind: "sig=9".into() },
                     _ => Fault { site: format!("proc.spawn:{}", id), occurrence: 1, kind: "eagain".into() },
                 };
@@ -1064,8 +1082,11 @@ impl Property for C20 {
     fn rule(&self) -> &'static str {
         "one case = metamorphic pair on two copies of one generated tree containing aggregates (nested, empty, over builds, services or both): side 0 requests an aggregate, side 1 requests its dependencies instead (an empty aggregate: nothing else), each side under its own seeded schedule, the signal only at idle. Oracle: same multiset of started scripts and same skipped set, same exit class, same keep-alive. distinct_nontrivial = distinct pairs of order hashes among pairs whose aggregate has at least one dependency"
     }
-    fn generate(&self, rng: &mut Rng, _case: u64) -> Scenario {
-        if rng.chance(15) {
+    fn generate(&self, rng: &mut Rng, case_no: u64) -> Scenario {
+        // every 50th pair: an aggregate over more dependencies than half the message queue holds,
+        // so that side 1 names 33-60 targets on the command line
+        let wide = case_no % 50 == 13;
+        if !wide && rng.chance(15) {
             // watch mode: everything requested through one aggregate must converge exactly as the
             // convergence oracle demands of directly requested targets
             let mut sc = super::watch::gen_watch(rng, &super::watch::WatchOpts { inside_build_pct: 55, ..Default::default() });
@@ -1116,7 +1137,17 @@ impl Property for C20 {
             sc.projects[0].targets.push(t);
             aggs.push(n);
         }
-        let a = *rng.pick(&aggs);
+        let mut a = *rng.pick(&aggs);
+        if wide {
+            let mut t = Target::new("wideagg", Kind::Aggregate);
+            for i in 0..rng.range(33, 60) {
+                let name = format!("w{}", i);
+                sc.projects[0].targets.push(Target::new(&name, Kind::Build));
+                t.deps.push(DepRef { project: 0, target: name, via_dep: true, via_output: false, qualified: false });
+            }
+            a = sc.projects[0].targets.len();
+            sc.projects[0].targets.push(t);
+        }
         let agg_name = sc.projects[0].targets[a].name.clone();
         let dep_names: Vec<String> = sc.projects[0].targets[a].deps.iter().map(|d| d.target.clone()).collect();
         // optionally another requested target alongside (same on both sides)
